@@ -269,13 +269,20 @@ def r4_builder(ctx):
             r.inst("builder_string_build_fns", "build_string/build_display exist only on the builder type whose every field marker is set")
         else:
             r.viol("R4:builder_string_build_fns", "string build functions are no longer restricted to the fully-set builder", file=MI)
-    fn = ast.fn("leptos_i18n_macro/src/t_macro/interpolate.rs", "to_token_stream", impl_self="InterpolatedValue")
+    TI = "leptos_i18n_macro/src/t_macro/interpolate.rs"
+    fn = ast.fn(TI, "to_token_stream", impl_self="InterpolatedValue")
     if fn is not None:
-        qs = [flat(tok_text(q["tokens"])) for q in xquotes(fn.body)]
-        if "#var_ident(#ident)" in qs and "#comp_ident(#ident)" in qs:
+        from rules import absint
+        from rules.absint import AEval, C, A
+        funcs = absint.file_funcs(ast, TI, "InterpolatedValue")
+        got = {}
+        for kind in ("Var", "Comp"):
+            v = AEval(funcs={k: f for k, f in funcs.items() if k != "to_token_stream"}).run_fn(fn, [C(kind, A("name"))])
+            got[kind] = re.sub(r"\s+", "", v[1]) if not isinstance(v, str) and v[0] == "tok" else (v if isinstance(v, str) else absint.fmt(v))
+        if got == {"Var": "var_name(name)", "Comp": "comp_name(name)"}:
             r.inst("t! setters", ".var_<name>(value) / .comp_<name>(value)")
         else:
-            r.viol("R4:t!#setters", "t! no longer calls the setter named after the argument", file=fn.file, line=fn.line)
+            r.viol("R4:t!#setters", "t! no longer calls the setter named after the argument: a variable `name` gives `%s`, a component `%s`" % (got.get("Var"), got.get("Comp")), file=fn.file, line=fn.line)
     fn = ast.fn("leptos_i18n_macro/src/t_macro/mod.rs", "t_macro_inner")
     if fn is not None:
         qs = [flat(tok_text(q["tokens"])) for q in xquotes(fn.body)]
